@@ -682,18 +682,40 @@ def _common_wiring(ctx, P: str):
            "downsample is not applied to both trajectories with "
            "args.downsample", key=f"{_R(P, 5)}:dof:downsample")
     mfa = A("motion_filter")
-    ok = {e.data.get("recv") for e in mf} == {ref, est} and all(
-        (e.data["bound"] or {}).get("distance_threshold") is
-        tm.sub(mfa, const(0)) and
-        (e.data["bound"] or {}).get("angle_threshold") is
-        tm.sub(mfa, const(1)) and
-        tm.is_const((e.data["bound"] or {}).get("degrees", const(False)),
-                    True) for e in mf)
-    ctx.ob(_R(P, 5), f, ok,
-           "motion filter: both trajectories, (args.motion_filter[0], [1], "
-           "degrees=True)" if ok else
-           "motion filter is not applied to both trajectories with "
-           "(distance, angle, degrees=True)", key=f"{_R(P, 5)}:dof:motion")
+    # decided end to end, whatever the signatures in between: the filter
+    # behind each call compares the path with args.motion_filter[0] and the
+    # rotation angle (rad) with args.motion_filter[1] taken as *degrees*
+    import math
+    from ..lib import motion_filter_probe
+    probe = motion_filter_probe(
+        prog, f, lambda e: (e.data.get("name") or "").endswith(
+            "PosePath3D.motion_filter"),
+        tm.sub(mfa, const(0)), tm.sub(mfa, const(1)))
+    recvs = {e.data.get("recv") for e, _, _ in probe}
+    bad = [(e, d, a) for e, d, a in probe if d is not None and a is not None
+           and not (abs(d - 1.0) < 1e-12 and
+                    abs(a - math.radians(1.0)) < 1e-12)]
+    unknown = [e for e, d, a in probe if d is None or a is None]
+    if unknown and not bad:
+        ctx.undecidable(_R(P, 5), unknown[0], "motion filter: thresholds "
+                        "compared inside the filter not found / not "
+                        "evaluable (unknown idiom)")
+    else:
+        ok = recvs == {ref, est} and not bad
+        why = ""
+        if bad:
+            e_, d_, a_ = bad[0]
+            why = (f" — for `--motion_filter 1 1` the filter behind "
+                   f"{fmt(e_.data.get('recv'))}.motion_filter compares the "
+                   f"path with {d_:g} m and the angle with {a_:.6g} rad "
+                   f"(expected 1 m and {math.radians(1.0):.6g} rad = 1 deg)")
+        ctx.ob(_R(P, 5), bad[0][0] if bad else f, ok,
+               "motion filter: both trajectories, distance in meters and "
+               "the angle of --motion_filter converted from degrees exactly "
+               "once" if ok else
+               "motion filter is not applied to both trajectories with the "
+               "given distance and the given angle in degrees" + why,
+               key=f"{_R(P, 5)}:dof:motion")
     # each step runs exactly when its own option is given
     for name, evs, opt, other in (("downsample", ds, "downsample",
                                    "motion_filter"),
